@@ -406,7 +406,12 @@ func (l *lexer) next() rune {
 }
 
 func (l *lexer) nextToken() Token {
-	return <-l.tokens
+	if tok, ok := <-l.tokens; ok {
+		return tok
+	}
+	// the lexer has stopped (end of input or lexical error) and closed the
+	// channel: keep answering EOF, a zero Token would never end the parser loops
+	return Token{Location: l.prev, Kind: EOF}
 }
 
 func (l *lexer) peek() rune {
